@@ -28,9 +28,12 @@ import (
 	"google.golang.org/protobuf/reflect/protoreflect"
 	"google.golang.org/protobuf/reflect/protoregistry"
 
+	"github.com/jamf/regatta/verifvp/vsync"
+
 	. "verif/harness/cmdx"
 	"verif/harness/evid"
 	"verif/harness/par"
+	"verif/harness/sched"
 )
 
 type viol struct{ sig, detail string }
@@ -545,7 +548,16 @@ func writeSnapshotFile(cmds []*regattapb.Command) ([]byte, error) {
 }
 
 // readBack reads a raw snapshot file message-wise with the real snapshot file reader.
-func readBack(raw []byte) ([][]byte, error) {
+func readBack(raw []byte) (out [][]byte, err error) {
+	defer func() {
+		if r := recover(); r != nil {
+			err = fmt.Errorf("PANIC in snapshot file Read: %v", r)
+		}
+	}()
+	return readBack0(raw)
+}
+
+func readBack0(raw []byte) ([][]byte, error) {
 	f, err := os.CreateTemp("", "verif-c18-*.bin")
 	if err != nil {
 		return nil, err
@@ -776,6 +788,46 @@ func runFraming(r *evid.Run) {
 			}
 		}
 	}
+	// alignment sweep of the snapshot file itself: the file is a snappy stream of 64 KiB blocks holding
+	// [8-byte length|message] records; a first record of every size 0..pad-1 shifts all later records so
+	// that block boundaries fall on every position of a record (inside the length prefix, inside the
+	// payload, exactly between records); files span several blocks
+	{
+		maxPad := 110
+		if r.Thorough() {
+			maxPad = 220
+		}
+		var ajobs []int
+		for p := 0; p < maxPad; p++ {
+			ajobs = append(ajobs, p)
+		}
+		par.For(int64(len(ajobs)), r.Expired, func(i int64) {
+			pad := ajobs[i]
+			cmds := []*regattapb.Command{{Table: Table, Type: regattapb.Command_PUT, Kv: &regattapb.KeyValue{Key: B("pad"), Value: payload(pad, 2)}}}
+			for k := 0; k < 2600; k++ { // ~2600 x (8+~45) bytes: three block boundaries
+				cmds = append(cmds, &regattapb.Command{Table: Table, Type: regattapb.Command_PUT, Kv: &regattapb.KeyValue{Key: B(fmt.Sprintf("key-%05d", k)), Value: payload(17+k%5, 2)}})
+			}
+			raw, err := writeSnapshotFile(cmds)
+			if err != nil {
+				r.Violate("framing/file/write-error", err.Error(), nil)
+				return
+			}
+			got, err := readBack(raw)
+			r.Outcome(fmt.Sprintf("align pad=%d", pad), true)
+			r.AddExtra("alignment_files", 1)
+			bad := err != nil || len(got) != len(cmds)
+			first := -1
+			for k := 0; !bad && k < len(cmds); k++ {
+				b, _ := cmds[k].MarshalVT()
+				if !bytes.Equal(got[k], b) {
+					bad, first = true, k
+				}
+			}
+			if bad {
+				r.Violate("framing/file/read-back-differs-when-a-block-boundary-falls-inside-a-record", fmt.Sprintf("first record of %d value bytes followed by 2600 small records: err %v, %d of %d messages, first difference at message %d", pad, err, len(got), len(cmds), first), map[string]any{"kind": "alignment", "pad": pad})
+			}
+		})
+	}
 	done := par.For(int64(len(jobs)), r.Expired, func(i int64) {
 		j := jobs[i]
 		vs := shipAndCheck(codec, j.raw, j.want, j.cuts)
@@ -793,13 +845,130 @@ func runFraming(r *evid.Run) {
 
 func Run(r *evid.Run) {
 	r.Check = "c18"
-	r.Rule("(A) codec: for every message type of the four proto packages, the empty value, every single-field setting to depth 3 (every scalar kind with several values incl. large, every enum value, every oneof arm, present-empty messages, present-default optional fields, 1- and 2-element lists, map entry), every PAIR of settings, and an everything-set value: encode with the registered codec, decode into a fresh object (equal incl. presence, identical re-encoding), agree with the standard protobuf implementation in both directions; SnapshotChunk additionally into an object recycled with ResetVT after holding every other payload. (B) compressors gzip/snappy/zstd via encoding.GetCompressor: 13 sizes x 3 contents, every ordered pair through the pooled writer/reader sequentially, read back whole / 1-byte / 7-byte; plus a free-running concurrent pass. (C) framing: command files written by the real snapshot file writer, shipped by the real snapshot.Writer.ReadFrom with EVERY placement of <= 2 cuts and every uniform chunk size, received by snapshot.Reader (WriteTo and Read), and backup.Writer -> BackupServer.Restore (backupReader); received bytes and message boundaries must be identical. Non-trivial: non-empty encoding / payload; distinct = distinct cases")
+	r.Rule("(A) codec: for every message type of the four proto packages, the empty value, every single-field setting to depth 3 (every scalar kind with several values incl. large, every enum value, every oneof arm, present-empty messages, present-default optional fields, 1- and 2-element lists, map entry), every PAIR of settings, and an everything-set value: encode with the registered codec, decode into a fresh object (equal incl. presence, identical re-encoding), agree with the standard protobuf implementation in both directions; SnapshotChunk additionally into an object recycled with ResetVT after holding every other payload. (B) compressors gzip/snappy/zstd via encoding.GetCompressor: 13 sizes x 3 contents, every ordered pair through the pooled writer/reader sequentially, read back whole / 1-byte / 7-byte; plus a free-running concurrent pass. (D) pooled compressor state: 2 threads x 1-2 compress+decompress round trips over 3 payloads, 4 program pairs per compressor, pool Get/Put and every Write/Close/Read boundary are scheduling points, all interleavings up to the preemption bound; every round trip exact, no object put into a pool twice. (C) framing: command files written by the real snapshot file writer, shipped by the real snapshot.Writer.ReadFrom with EVERY placement of <= 2 cuts and every uniform chunk size, received by snapshot.Reader (WriteTo and Read), and backup.Writer -> BackupServer.Restore (backupReader); received bytes and message boundaries must be identical; plus an alignment sweep of multi-block snapshot files (first record of every size 0..109, then 2600 small records) written and read back message-wise so that 64 KiB block boundaries fall on every position of a record. Non-trivial: non-empty encoding / payload; distinct = distinct cases")
 	runCodec(r)
 	runCompressors(r)
 	runFraming(r)
-	r.Assume("exploration of pool interleavings under a controlled scheduler (sync.Pool shim) is not part of this check; concurrent use of the compressors is exercised free-running only and that pass cannot decide the property")
+	runPools(r)
+	r.Assume("pool interleavings: sync.Pool in the three compressor files is replaced through the build overlay by a deterministic LIFO pool whose Get/Put are scheduling points (real GC-driven pool eviction is not modelled: an evicted object is simply never reused, which the empty-pool starts cover); explored to the preemption bound in pool_preemption_bound; the additional free-running concurrent pass cannot decide anything")
 }
 
 func Replay(raw json.RawMessage) (string, bool) {
 	return "C18 cases are pure and deterministic: re-run scripts/check.sh C18 quick; case: " + string(raw) + "\n", false
+}
+
+// ---------------------------------------------------------------------------------------------
+// (D) pooled compressor state under a controlled scheduler. The three grpc.go files are built with
+// "sync" replaced by the vsync shim (build overlay): sync.Pool is a deterministic LIFO pool whose Get
+// and Put are scheduling points. Two threads run 1-2 compress+decompress round trips each; all
+// interleavings up to a preemption bound.
+
+type poolProg struct{ payloads []int }
+
+func runPools(r *evid.Run) {
+	pay := [][]byte{{}, payload(100, 1), payload(5000, 2)}
+	progs := [][2][]int{{{1, 2}, {2}}, {{2}, {1, 0}}, {{1}, {1}}, {{2, 1}, {0, 2}}}
+	bound := 2
+	if r.Thorough() {
+		bound = 3
+	}
+	vsync.Hook = func(op string) {
+		if t := sched.Cur(); t != nil {
+			t.Point(op)
+		}
+	}
+	defer func() { vsync.Hook = nil }()
+	for _, name := range []string{"gzip", "snappy", "zstd"} {
+		c := encoding.GetCompressor(name)
+		for _, pg := range progs {
+			var results [][]string
+			mk := func() sched.Scenario {
+				vsync.DrainAll()
+				_ = vsync.TakeMisuse()
+				results = make([][]string, 2)
+				var sc sched.Scenario
+				for ti := 0; ti < 2; ti++ {
+					ti := ti
+					sc.Threads = append(sc.Threads, func(t *sched.T) {
+						for _, pi := range pg[ti] {
+							p := pay[pi]
+							var buf bytes.Buffer
+							w, err := c.Compress(&buf)
+							if err != nil {
+								results[ti] = append(results[ti], "compress: "+err.Error())
+								continue
+							}
+							t.Point("write")
+							_, err = w.Write(p)
+							t.Point("close")
+							if cerr := w.Close(); err == nil {
+								err = cerr
+							}
+							if err != nil {
+								results[ti] = append(results[ti], "write: "+err.Error())
+								continue
+							}
+							rd, err := c.Decompress(bytes.NewReader(buf.Bytes()))
+							if err != nil {
+								results[ti] = append(results[ti], "decompress: "+err.Error())
+								continue
+							}
+							// one read step: the compressors may deliver the same bytes in a varying number of
+							// Read calls (zstd decodes asynchronously), which would make executions
+							// non-reproducible; the pool.Put at EOF inside is still a scheduling point
+							t.Point("read")
+							got, err := io.ReadAll(rd)
+							if err != nil {
+								results[ti] = append(results[ti], "read: "+err.Error())
+								continue
+							}
+							if bytes.Equal(got, p) {
+								results[ti] = append(results[ti], "ok")
+							} else {
+								results[ti] = append(results[ti], fmt.Sprintf("DIFFERS: got %d bytes want %d", len(got), len(p)))
+							}
+						}
+					})
+				}
+				return sc
+			}
+			states := map[string]struct{}{}
+			ex := &sched.Explorer{Mk: mk, MaxBound: bound, Stop: r.Expired, States: states,
+				Check: func(x sched.Exec, _ *sched.Scenario) string {
+					out := fmt.Sprint(results)
+					cs := map[string]any{"kind": "pool", "compressor": name, "programs": pg, "choices": x.Choices, "trace": sched.TraceStr(x)}
+					if x.Diverged != "" {
+						// not reproducible: an infrastructure problem, never a verdict
+						r.AddExtra("pool_diverged_executions", 1)
+						r.Cap("pool exploration: a replayed prefix diverged (" + name + "): " + x.Diverged)
+						return "diverged"
+					}
+					if x.Deadlock || x.Livelock || x.Panic != "" {
+						sig := "pool/execution-abnormal/" + name
+						if x.Panic != "" {
+							sig = "pool/panic/" + name
+						}
+						r.Violate(sig, fmt.Sprintf("deadlock=%v livelock=%v panic=%s | trace %s", x.Deadlock, x.Livelock, x.Panic, sched.TraceStr(x)), cs)
+						return "abnormal"
+					}
+					for _, m := range vsync.TakeMisuse() {
+						r.Violate("pool/misuse/"+name, m+" | trace "+sched.TraceStr(x), cs)
+					}
+					for ti := range results {
+						for _, res := range results[ti] {
+							if res != "ok" {
+								r.Violate("pool/concurrent-roundtrip-differs/"+name, fmt.Sprintf("thread %d: %s | trace %s", ti, res, sched.TraceStr(x)), cs)
+							}
+						}
+					}
+					r.Outcome(name+fmt.Sprint(pg)+sched.TraceStr(x), true)
+					return out
+				}}
+			res := ex.Run()
+			r.AddExtra("pool_executions", res.Executions)
+			r.AddExtra("pool_scheduling_decisions", res.Points)
+			r.Part(map[string]any{"scenario": fmt.Sprintf("pool/%s programs %v", name, pg), "executions": res.Executions, "preemption_bound_completed": res.Bound, "space_exhausted_at_bound": res.Exhausted})
+		}
+	}
+	r.Extra("pool_preemption_bound", bound)
 }
